@@ -62,22 +62,331 @@ fn fee_of(tx: &Transaction, prevouts: &HashMap<OutPoint, TxOut>) -> Option<u64> 
 	Some(inp - tx.output.iter().map(|o| o.value.to_sat()).sum::<u64>())
 }
 
-struct Outcome { ops: Vec<(String, String)>, directives: Vec<String>, class: String, oracle: Vec<String> }
+/// `ops`: (op line, implementation answer — `None` = a directive whose answer is not compared, class)
+struct Outcome { ops: Vec<(String, Option<String>, String)>, directives: Vec<String>, class: String, oracle: Vec<String>, extra_classes: Vec<String> }
 
-fn justice_scenario(seed: u64, thorough: bool) -> Result<Outcome, String> {
+/// the op / directive stream of one scenario, in file order (`None` answer = directive)
+#[derive(Default)]
+struct Stream { lines: Vec<(String, Option<String>, String)> }
+
+thread_local! { static HIST: std::cell::RefCell<Vec<String>> = std::cell::RefCell::new(vec![]); }
+fn hist_push(s: String) { HIST.with(|h| h.borrow_mut().push(s)); }
+fn hist_show() -> String { HIST.with(|h| h.borrow().join("; ")) }
+
+const LOW_FREQUENCY_BUMP_INTERVAL: u32 = 15;
+/// `on_counterparty_tx_csv` of the test channel configs (`our_to_self_delay` = BREAKDOWN_TIMEOUT)
+const CSV: u32 = lightning::ln::channelmanager::BREAKDOWN_TIMEOUT as u32;
+
+/// best chain of the node as the harness (the "miner") knows it: tip, confirmation height of every transaction, spender of every outpoint
+fn chain_view(node: &Node) -> (u32, HashMap<Txid, u32>, HashMap<OutPoint, (Txid, u32)>) {
+	let blocks = node.blocks.lock().unwrap();
+	let mut conf = HashMap::new(); let mut spent = HashMap::new();
+	for (b, h) in blocks.iter() { for t in b.txdata.iter() { if t.input.is_empty() { continue; } let id = t.compute_txid(); conf.insert(id, *h); for i in &t.input { spent.insert(i.previous_output, (id, *h)); } } }
+	(blocks.last().unwrap().1, conf, spent)
+}
+
+/// everything the reorg part of a scenario tracks
+struct Ctx {
+	seed: u64, style: String, chan_id: lightning::ln::types::ChannelId,
+	/// ConnectStyle that does not tell the monitor which blocks went away at disconnection time (`*ReorgsOnlyTip`: only
+	/// `transaction_unconfirmed`): claims of an unconfirmed parent may linger, so after the first disconnection the chain ops
+	/// are not compared with the model (the implementation oracles still apply)
+	lax: bool, disconnected_once: bool,
+	funding: OutPoint, revoked_txid: Txid, me: Cmt,
+	/// every second-stage transaction the cheater holds for the revoked commitment (model index = position)
+	cand: Vec<Transaction>, cand_ids: Vec<Txid>,
+	prevouts: HashMap<OutPoint, TxOut>,
+	/// every victim broadcast with the height at which it was seen; `[..evicted]` have left the mempool
+	bcast: Vec<(u32, Transaction)>, evicted: usize,
+	last_issue: BTreeMap<OutPoint, u32>, last_fee: BTreeMap<Vec<OutPoint>, u64>,
+	spendable: BTreeMap<OutPoint, u64>, to_remote: BTreeMap<OutPoint, u64>,
+	/// transactions that have had ANTI_REORG_DELAY confirmations at some point: final (the library's re-org assumption), never disconnected again
+	final_txs: BTreeSet<Txid>,
+	fork_id: u32, stream: Stream, oracle: Vec<String>, soft: Vec<String>, soft_kinds: BTreeSet<&'static str>, classes: Vec<String>, stale_seen: u32,
+}
+
+impl Ctx {
+	fn tag(&self, op: &OutPoint) -> Option<(u8, u32, u32)> {
+		if op.txid == self.revoked_txid { return Some((0, 0, op.vout)); }
+		self.cand_ids.iter().position(|t| *t == op.txid).map(|k| (1, k as u32, op.vout))
+	}
+	fn show_tag(t: &(u8, u32, u32)) -> String { if t.0 == 0 { format!("c{}", t.2) } else { format!("s{}:{}", t.1, t.2) } }
+	fn name(&self, op: &OutPoint) -> String { self.tag(op).map(|t| Self::show_tag(&t)).unwrap_or_else(|| format!("{}", op)) }
+	fn is_victim_tx(&self, id: &Txid) -> bool { self.bcast.iter().any(|(_, t)| t.compute_txid() == *id) }
+	/// recorded once per kind; the scenario goes on (what finally matters is whether the output is recovered)
+	fn fail_soft(&mut self, kind: &'static str, what: String) { if self.soft_kinds.insert(kind) { let m = format!("{} — history (seed {}, {}): {}", what, self.seed, self.style, hist_show()); self.soft.push(m); } }
+	fn fail(&mut self, what: String) { let m = format!("{} — history (seed {}, {}): {}", what, self.seed, self.style, hist_show()); if self.oracle.len() < 6 { self.oracle.push(m); } }
+	/// model token of a transaction in a block: `C`, `S<k>`, `J<op>+<op>…`
+	fn tx_tok(&self, t: &Transaction) -> String {
+		let id = t.compute_txid();
+		if id == self.revoked_txid { return "C".into(); }
+		if let Some(k) = self.cand_ids.iter().position(|x| *x == id) { return format!("S{}", k); }
+		format!("J{}", t.input.iter().map(|i| self.name(&i.previous_output)).collect::<Vec<_>>().join("+"))
+	}
+	/// the revoked outputs that exist on the best chain: to_local / HTLC outputs of the confirmed revoked commitment and, for every
+	/// confirmed second-stage transaction, the output at the index of each input that spends the commitment with a 5-element witness
+	fn revocable(&self, conf: &HashMap<Txid, u32>) -> Vec<(OutPoint, u32)> {
+		let mut v = vec![];
+		if let Some(h) = conf.get(&self.revoked_txid) { for (i, (_, k)) in self.me.outs.iter().enumerate() { if *k == 'L' || *k == 'H' { v.push((OutPoint { txid: self.revoked_txid, vout: i as u32 }, *h)); } } }
+		for (k, t) in self.cand.iter().enumerate() { if let Some(h) = conf.get(&self.cand_ids[k]) {
+			for (idx, inp) in t.input.iter().enumerate() { if inp.previous_output.txid == self.revoked_txid && inp.witness.len() == 5 && idx < t.output.len() { v.push((OutPoint { txid: self.cand_ids[k], vout: idx as u32 }, *h)); } }
+		} }
+		v
+	}
+	/// a claim whose next 25 % bump (or a fee at the half-of-inputs cap) would leave less than the dust limit is not re-issued by the
+	/// height timer (feerate_bump answers None): exempt from the window oracle, still subject to the rebroadcast / drain oracles
+	fn unbumpable(&self, x: &OutPoint) -> bool {
+		if self.prevouts.get(x).map(|o| o.value.to_sat()).unwrap_or(0) < 1300 { return true; }   // alone in its package after a split
+		for (_, t) in self.bcast.iter().rev() { if t.input.iter().any(|i| i.previous_output == *x) {
+			let inp: u64 = t.input.iter().map(|i| self.prevouts.get(&i.previous_output).map(|o| o.value.to_sat()).unwrap_or(0)).sum();
+			let fee = inp.saturating_sub(t.output.iter().map(|o| o.value.to_sat()).sum::<u64>());
+			return inp < 1300 || inp < fee + fee / 4 + 20 + 650;
+		} }
+		false
+	}
+
+	/// collect what the victim did during the last step, compare the claim bookkeeping with the model, run the per-step oracles
+	fn after(&mut self, net: &Net, op: Option<String>, class: &str) {
+		let node = &net.nodes[0];
+		let v: Vec<Transaction> = node.tx_broadcaster.txn_broadcasted.lock().unwrap().drain(..).collect();
+		let (tip, conf, spent) = chain_view(node);
+		for (id, h) in conf.iter() { if *h + ANTI_REORG_DELAY - 1 <= tip { self.final_txs.insert(*id); } }
+		for t in v {
+			if std::env::var("C06_DEBUG").is_ok() { eprintln!("h={} bcast {} in={:?} out={:?}", tip, t.compute_txid(), t.input.iter().map(|i| self.name(&i.previous_output)).collect::<Vec<_>>(), t.output.iter().map(|o| o.value.to_sat()).collect::<Vec<_>>()); }
+			// the victim's OWN latest commitment: broadcast (legitimately) when a reload finds the channel closed while the reorg has
+			// left the funding output unspent; it never confirms here (the cheater's transaction is re-mined first)
+			if t.input.len() == 1 && t.input[0].previous_output == self.funding { self.classes.push("own-commitment-broadcast-while-revoked-one-unconfirmed".into()); if conf.get(&self.revoked_txid).map(|h| *h < tip).unwrap_or(false) { self.fail("victim broadcasts its own commitment although the revoked one is confirmed below the tip".into()); } continue; }
+			let mut unrelated = false;
+			for i in &t.input { if self.tag(&i.previous_output).is_none() { unrelated = true; } self.last_issue.insert(i.previous_output, tip); }
+			if unrelated { self.fail(format!("victim broadcast {} spends an unrelated outpoint", t.compute_txid())); continue; }
+			if let Err(e) = t.verify(|op| self.prevouts.get(op).cloned()) { self.fail(format!("justice tx {} (inputs {}) fails consensus verification: {:?}", t.compute_txid(), self.tx_tok(&t), e)); }
+			let mut key: Vec<OutPoint> = t.input.iter().map(|i| i.previous_output).collect(); key.sort();
+			if let Some(f) = fee_of(&t, &self.prevouts) {
+				// a plain rebroadcast recomputes its fee from the stored feerate (`previous_feerate * weight / 1000`, Generated/Package.lean
+				// feerateBump, arms retryPrevious / highestOfPreviousOrNew): it may fall short of the last fee by the rounding of fee -> rate -> fee
+				let slack = t.weight().to_wu() / 1000 + 2;
+				if let Some(prev) = self.last_fee.get(&key) { if f + slack < *prev { self.fail(format!("re-issued claim {} lowers its fee {} -> {}", self.tx_tok(&t), prev, f)); } }
+				self.last_fee.insert(key, f);
+			}
+			self.bcast.push((tip, t));
+		}
+		for e in node.chain_monitor.chain_monitor.get_and_clear_pending_events() { if let Event::SpendableOutputs { outputs, .. } = e { for o in outputs { match o {
+			SpendableOutputDescriptor::StaticOutput { outpoint, output, .. } => { self.spendable.insert(outpoint.into_bitcoin_outpoint(), output.value.to_sat()); },
+			SpendableOutputDescriptor::StaticPaymentOutput(d) => { self.to_remote.insert(d.outpoint.into_bitcoin_outpoint(), d.output.value.to_sat()); },
+			SpendableOutputDescriptor::DelayedPaymentOutput(d) => { self.spendable.insert(d.outpoint.into_bitcoin_outpoint(), d.output.value.to_sat()); },
+		} } } }
+		let (claimable, locktimed) = match node.chain_monitor.chain_monitor.get_monitor(self.chan_id) { Ok(mon) => { let (c, l, _, _) = vh::monitor_claims_view(&mon); (c, l) }, Err(_) => { self.fail("victim monitor disappeared".into()); return; } };
+		// ---- the claim bookkeeping as the model sees it: `outpoint@creation_height` of every entry whose parent is on the best chain
+		let mut line: BTreeSet<((u8, u32, u32), u32)> = BTreeSet::new();
+		for (o, created, _) in claimable.iter() { match self.tag(o) {
+			Some(t) => { if conf.contains_key(&o.txid) { line.insert((t, *created)); } else { self.stale_seen += 1; } },
+			None => if *o != self.funding { self.fail(format!("claim registered for an unrelated outpoint {}", o)) },
+		} }
+		let answer = list_or_dash(line.iter().map(|(t, c)| format!("{}@{}", Self::show_tag(t), c)).collect(), " ");
+		if let Some(op) = op {
+			if self.lax && self.disconnected_once { self.stream.lines.push((op, None, String::new())); } else { self.stream.lines.push((op, Some(answer.clone()), class.to_string())); }
+		}
+		if std::env::var("C06_DEBUG").is_ok() { eprintln!("h={} claims {} locktimed {:?} stale {}", tip, answer, locktimed.iter().map(|l| self.name(&l.0)).collect::<Vec<_>>(), self.stale_seen); }
+		// ---- oracle: every revoked output that exists unspent on the best chain has a pending claim, created at its parent's height, and is re-issued in time
+		for (x, ph) in self.revocable(&conf) {
+			if spent.contains_key(&x) { continue; }
+			let parked = locktimed.iter().any(|l| l.0 == x);
+			match claimable.iter().find(|c| c.0 == x) {
+				None => { if !parked { self.fail_soft("no-claim", format!("revoked output {} of confirmed tx {} (height {}) is unspent on the best chain (tip {}) but no claim for it is pending", self.name(&x), x.txid, ph, tip)); continue; } },
+				Some((_, created, pending)) => {
+					if !*pending && !parked { self.fail_soft("no-request", format!("revoked output {} (parent confirmed at {}) is unspent on the best chain (tip {}) and still registered, but its claim request is gone: nothing will be rebroadcast for it", self.name(&x), ph, tip)); continue; }
+					if !self.lax && *created != ph { self.fail_soft("creation-height", format!("claim on revoked output {} records creation height {} but its parent transaction is confirmed at height {} (tip {})", self.name(&x), created, ph, tip)); }
+				},
+			}
+			match self.last_issue.get(&x) {
+				None => { self.fail_soft("never-broadcast", format!("claim on revoked output {} (parent confirmed at {}) was never broadcast (tip {})", self.name(&x), ph, tip)); },
+				Some(li) => if tip > li + LOW_FREQUENCY_BUMP_INTERVAL { if self.unbumpable(&x) { self.classes.push("window:exempt-unbumpable".into()); } else {
+					self.fail_soft("window", format!("claim on revoked output {} was last issued at height {} and not re-issued by height {} (> LOW_FREQUENCY_BUMP_INTERVAL)", self.name(&x), li, tip)); } },
+			}
+		}
+	}
+
+	fn connect(&mut self, net: &Net, txs: Vec<Transaction>, class: &str) {
+		let node = &net.nodes[0];
+		let h = node.best_block_info().1 + 1;
+		let toks = list_or_dash(txs.iter().map(|t| self.tx_tok(t)).collect(), ",");
+		hist_push(format!("connect@{}[{}]", h, toks));
+		// a claim regenerated after its parent re-confirms starts from a fresh feerate
+		if txs.iter().any(|t| { let id = t.compute_txid(); id == self.revoked_txid || self.cand_ids.contains(&id) }) { self.last_fee.clear(); }
+		let block = create_dummy_block(node.best_block_hash(), h + self.fork_id * 100_000, txs);
+		connect_block(node, &block);
+		self.after(net, Some(format!("conn {}", toks)), class);
+	}
+	/// `n` empty blocks through `connect_blocks` (the `*SkippingBlocks` styles deliver only the last one)
+	fn connect_empty(&mut self, net: &Net, n: u32) {
+		if n == 0 { return; }
+		hist_push(format!("connect {} empty", n));
+		connect_blocks(&net.nodes[0], n);
+		for _ in 1..n { self.stream.lines.push(("conn -".into(), None, String::new())); }
+		self.after(net, Some("conn -".into()), "chain:empty");
+	}
+	fn disconnect(&mut self, net: &Net, depth: u32, class: &str) {
+		let node = &net.nodes[0];
+		let new_tip = node.best_block_info().1 - depth;
+		hist_push(format!("disconnect {} -> tip {}", depth, new_tip));
+		disconnect_blocks(node, depth);
+		self.fork_id += 1; self.disconnected_once = true;
+		self.last_fee.clear();   // a claim regenerated after its parent re-confirms starts from a fresh feerate
+		self.after(net, Some(format!("disc {}", new_tip)), class);
+	}
+	fn rebroadcast(&mut self, net: &Net) {
+		hist_push("rebroadcast_pending_claims".into());
+		net.nodes[0].chain_monitor.chain_monitor.rebroadcast_pending_claims();
+		self.after(net, Some("rebc".into()), "chain:rebroadcast");
+	}
+	fn reload(&mut self, net: &mut Net) -> Result<(), String> {
+		hist_push("reload".into());
+		net.restart(0).map_err(|e| format!("reload failed: {}", e))?;
+		self.after(net, Some("reload".into()), "chain:reload");
+		Ok(())
+	}
+	/// the victim's latest non-conflicting transactions still in the mempool that are valid on the best chain
+	fn pick_mempool(&self, net: &Net) -> Vec<Transaction> {
+		let (_, conf, spent) = chain_view(&net.nodes[0]);
+		let mut used: BTreeSet<OutPoint> = BTreeSet::new(); let mut chosen = vec![];
+		for (_, t) in self.bcast[self.evicted..].iter().rev() {
+			if conf.contains_key(&t.compute_txid()) { continue; }
+			if t.input.iter().all(|i| conf.contains_key(&i.previous_output.txid) && !spent.contains_key(&i.previous_output) && !used.contains(&i.previous_output)) {
+				for i in &t.input { used.insert(i.previous_output); }
+				chosen.push(t.clone());
+			}
+		}
+		chosen
+	}
+
+	/// one reorg: disconnect down to a fork point chosen relative to the tracked transactions, then connect a different branch
+	fn reorg_round(&mut self, net: &mut Net, rng: &mut Rng) -> Result<bool, String> {
+		let (tip, conf, _) = chain_view(&net.nodes[0]);
+		let h_c = match conf.get(&self.revoked_txid) { Some(h) => *h, None => return Ok(false) };
+		let s_heights: Vec<u32> = self.cand_ids.iter().filter_map(|i| conf.get(i).cloned()).collect();
+		let j_heights: Vec<u32> = conf.iter().filter(|(id, _)| self.is_victim_tx(id)).map(|(_, h)| *h).collect();
+		let tracked: Vec<u32> = std::iter::once(h_c).chain(s_heights.iter().cloned()).chain(j_heights.iter().cloned()).collect();
+		// a transaction with ANTI_REORG_DELAY confirmations is final (the library's assumption): never disconnect one
+		let floor = conf.iter().filter(|(id, _)| self.final_txs.contains(*id)).map(|(_, h)| *h).max().unwrap_or(0).max(h_c.saturating_sub(3));
+		let top = *tracked.iter().max().unwrap();
+		let mut cats: Vec<(&str, u32, u32)> = vec![("above", top, tip - 1)];
+		let base = s_heights.iter().max().cloned().unwrap_or(h_c).max(h_c);
+		if let Some(mj) = j_heights.iter().max() { if *mj > base { cats.push(("belowJ", base, mj - 1)); } }
+		if let Some(ms) = s_heights.iter().max() { if *ms > h_c { cats.push(("belowS", h_c, ms - 1)); } }
+		cats.push(("belowC", h_c.saturating_sub(3), h_c - 1));
+		let cats: Vec<(&str, u32, u32)> = cats.into_iter().filter_map(|(n, lo, hi)| { let lo = lo.max(floor); let hi = hi.min(tip - 1); if lo <= hi && tip >= 1 { Some((n, lo, hi)) } else { None } }).collect();
+		if cats.is_empty() { return Ok(false); }
+		let (cat, lo, hi) = cats[rng.below(cats.len() as u64) as usize];
+		let new_tip = match rng.below(3) { 0 => lo, 1 => hi, _ => rng.range(lo as u64, hi as u64) as u32 };
+		let depth = tip - new_tip;
+		// what goes away, in chain order
+		let gone: Vec<Transaction> = { let blocks = net.nodes[0].blocks.lock().unwrap(); blocks.iter().filter(|(_, h)| *h > new_tip).flat_map(|(b, _)| b.txdata.iter().filter(|t| !t.input.is_empty()).cloned().collect::<Vec<_>>()).collect() };
+		let mempool_now = self.pick_mempool(net);
+		self.disconnect(net, depth, &format!("reorg:{}:depth{}", cat, depth.min(4)));
+		self.classes.push(format!("reorg:{}:{}", cat, if self.lax { "txonly" } else { "full" }));
+		if !self.oracle.is_empty() { return Ok(true); }
+		if rng.chance(1, 6) { self.reload(net)?; }
+		if !self.lax && rng.chance(1, 6) { self.rebroadcast(net); }
+		// ---- the other branch
+		let n_new = if rng.chance(1, 6) { depth.saturating_sub(1).max(1) } else { depth + rng.below(3) as u32 };
+		let mut slots: Vec<Vec<Transaction>> = vec![vec![]; n_new as usize];
+		let c_gone = gone.iter().any(|t| t.compute_txid() == self.revoked_txid);
+		let p_c = if c_gone { rng.below(n_new.min(3) as u64) as usize } else { 0 };
+		for t in gone.iter() {
+			let id = t.compute_txid();
+			if id == self.revoked_txid { slots[p_c].push(t.clone()); }
+			else if self.cand_ids.contains(&id) { if rng.chance(3, 4) { slots[rng.range(p_c as u64, n_new as u64 - 1) as usize].push(t.clone()); } else { self.classes.push("reorg:second-stage-dropped".into()); } }
+			else if rng.chance(1, 3) { slots[rng.range(p_c as u64, n_new as u64 - 1) as usize].push(t.clone()); self.classes.push("reorg:justice-reincluded".into()); }
+			else { self.classes.push("reorg:justice-withheld".into()); }
+		}
+		for (k, t) in self.cand.iter().enumerate() { if !conf.contains_key(&self.cand_ids[k]) && rng.chance(1, 6) { slots[rng.range(p_c as u64, n_new as u64 - 1) as usize].push(t.clone()); } }
+		for t in mempool_now { if rng.chance(1, 5) { slots[rng.below(n_new as u64) as usize].push(t); } }
+		for (bi, slot) in slots.into_iter().enumerate() {
+			// block order: commitment, second stage, victim; anything not valid on this branch is left out (the miner's view)
+			let (_, conf2, spent2) = chain_view(&net.nodes[0]);
+			let mut txs: Vec<Transaction> = vec![]; let mut here: BTreeSet<Txid> = BTreeSet::new(); let mut used: BTreeSet<OutPoint> = BTreeSet::new();
+			let rank = |s: &Ctx, t: &Transaction| { let id = t.compute_txid(); if id == s.revoked_txid { 0 } else if s.cand_ids.contains(&id) { 1 } else { 2 } };
+			let mut slot = slot; slot.sort_by_key(|t| rank(self, t));
+			for t in slot {
+				let id = t.compute_txid();
+				if conf2.contains_key(&id) || here.contains(&id) { continue; }
+				let ok = if id == self.revoked_txid { true } else { t.input.iter().filter(|i| self.tag(&i.previous_output).is_some() || id != self.revoked_txid).all(|i| (conf2.contains_key(&i.previous_output.txid) || here.contains(&i.previous_output.txid)) && !spent2.contains_key(&i.previous_output) && !used.contains(&i.previous_output)) };
+				if ok { for i in &t.input { used.insert(i.previous_output); } here.insert(id); txs.push(t); }
+			}
+			self.connect(net, txs, &format!("reorg:{}:branch", cat));
+			if !self.oracle.is_empty() { return Ok(true); }
+			if bi == 0 && rng.chance(1, 8) { self.reload(net)?; }
+		}
+		Ok(true)
+	}
+
+	/// the mempool forgets every earlier victim broadcast (evicted / never relayed): success now REQUIRES the claims to be re-issued
+	fn drain(&mut self, net: &mut Net, rng: &mut Rng) -> Result<(), String> {
+		hist_push("mempool evicts every earlier victim broadcast".into());
+		self.evicted = self.bcast.len();
+		if rng.chance(1, 4) { self.reload(net)?; }
+		let by_timer = rng.chance(1, 2);
+		for round in 0..4 {
+			if round == 0 && by_timer { for _ in 0..(LOW_FREQUENCY_BUMP_INTERVAL + 1) { self.connect(net, vec![], "drain:timer"); if !self.oracle.is_empty() { return Ok(()); } } }
+			self.rebroadcast(net);
+			if !self.oracle.is_empty() { return Ok(()); }
+			let (tip, conf, spent) = chain_view(&net.nodes[0]);
+			for (x, ph) in self.revocable(&conf) { if !spent.contains_key(&x) && !self.bcast[self.evicted..].iter().any(|(_, t)| t.input.iter().any(|i| i.previous_output == x)) {
+				if self.unbumpable(&x) { self.classes.push("rebroadcast:exempt-unbumpable".into()); continue; }
+				self.fail_soft("no-rebroadcast", format!("revoked output {} of confirmed tx {} (height {}) is unspent on the best chain (tip {}) but nothing is rebroadcast for it (rebroadcast_pending_claims{})", self.name(&x), x.txid, ph, tip, if by_timer { " and 16 blocks of height timers" } else { "" })); } }
+			let chosen = self.pick_mempool(net);
+			if chosen.is_empty() { break; }
+			self.connect(net, chosen, "drain:mine");
+			if !self.oracle.is_empty() { return Ok(()); }
+		}
+		self.connect_empty(net, ANTI_REORG_DELAY);
+		if !self.oracle.is_empty() { return Ok(()); }
+		// past every CSV delay: whatever is still unclaimed is the cheater's
+		self.connect_empty(net, CSV + 1);
+		if !self.oracle.is_empty() { return Ok(()); }
+		let node = &net.nodes[0];
+		let (tip, conf, spent) = chain_view(node);
+		let mut left_unbumpable = false;
+		for (x, ph) in self.revocable(&conf) { match spent.get(&x) {
+			None => { if self.unbumpable(&x) { self.classes.push("undrained:exempt-unbumpable".into()); left_unbumpable = true; continue; }
+				self.fail(format!("after draining, the cheater can spend revoked output {} ({} sat) of tx confirmed at {}: CSV {} matured at {}, tip {}, never claimed", self.name(&x), self.prevouts.get(&x).map(|o| o.value.to_sat()).unwrap_or(0), ph, CSV, ph + CSV, tip)); return Ok(()); },
+			Some((id, _)) => if !self.is_victim_tx(id) && !self.cand_ids.contains(id) { self.fail(format!("revoked output {} was spent by a transaction that is neither the victim's nor a known second-stage transaction", self.name(&x))); },
+		} }
+		let mine: Vec<Transaction> = { let mut seen = BTreeSet::new(); self.bcast.iter().map(|(_, t)| t).filter(|t| conf.contains_key(&t.compute_txid()) && seen.insert(t.compute_txid())).cloned().collect() };
+		let claimed_value: u64 = mine.iter().map(|t| t.input.iter().map(|i| self.prevouts[&i.previous_output].value.to_sat()).sum::<u64>()).sum();
+		let fees: u64 = mine.iter().map(|t| fee_of(t, &self.prevouts).unwrap_or(0)).sum();
+		let swept: u64 = self.spendable.iter().filter(|(o, _)| conf.contains_key(&o.txid)).map(|(_, v)| *v).sum();
+		let orphan: Vec<String> = self.spendable.keys().filter(|o| !conf.contains_key(&o.txid)).map(|o| o.to_string()).collect();
+		if !orphan.is_empty() { self.fail(format!("SpendableOutputs reported for transactions that are not on the best chain: {:?}", orphan)); }
+		if swept + fees != claimed_value { self.fail(format!("after burial SpendableOutputs {} + fees {} != claimed value {} ({} justice transactions confirmed)", swept, fees, claimed_value, mine.len())); }
+		let my_to_remote: u64 = self.me.outs.iter().filter(|o| o.1 == 'R').map(|o| o.0).sum();
+		let to_remote_swept: u64 = self.to_remote.iter().filter(|(o, _)| conf.contains_key(&o.txid)).map(|(_, v)| *v).sum();
+		if to_remote_swept != my_to_remote { self.fail(format!("victim's own to_remote {} not reported spendable (got {})", my_to_remote, to_remote_swept)); }
+		let bals = match node.chain_monitor.chain_monitor.get_monitor(self.chan_id) { Ok(mon) => mon.get_claimable_balances(), Err(_) => vec![] };
+		let left: Vec<&Balance> = bals.iter().filter(|b| !matches!(b, Balance::MaybePreimageClaimableHTLC { .. })).collect();
+		if !left.is_empty() && !left_unbumpable { self.fail(format!("claimable balances do not drain after burial: {:?}", left)); }
+		Ok(())
+	}
+}
+
+fn justice_scenario(seed: u64, thorough: bool, index: u64) -> Result<Outcome, String> {
 	let mut rng = Rng::new(seed);
-	let mut out = Outcome { ops: vec![], directives: vec![], class: String::new(), oracle: vec![] };
+	HIST.with(|h| h.borrow_mut().clear());
+	let mut out = Outcome { ops: vec![], directives: vec![], class: String::new(), oracle: vec![], extra_classes: vec![] };
 	let anchors = rng.chance(1, 3);
 	let cfg = if anchors { test_default_channel_config() } else { test_legacy_channel_config() };
 	let reload = rng.below(4);   // 1: monitor + manager serialised and reloaded before the confirmation, 2: after it
 	let mut net = std::mem::ManuallyDrop::new(Net::new(2, vec![Some(cfg.clone()), Some(cfg)]));   // never dropped: skips Node::drop's end-of-test assertions (half-finished scenario by design)
-	{	// block-delivery style from the scenario seed (create_network draws it from a per-process RandomState otherwise)
+	let style = {	// block-delivery style: every style in turn (create_network draws it from a per-process RandomState otherwise)
 		use ConnectStyle::*;
 		let styles = [BestBlockFirst, BestBlockFirstSkippingBlocks, BestBlockFirstReorgsOnlyTip, TransactionsFirst, TransactionsFirstSkippingBlocks,
 			TransactionsDuplicativelyFirstSkippingBlocks, HighlyRedundantTransactionsFirstSkippingBlocks, TransactionsFirstReorgsOnlyTip, FullBlockViaListen,
 			ReplayedFullBlockViaListen, FullBlockDisconnectionsSkippingViaListen];
-		*net.nodes[0].connect_style.borrow_mut() = styles[rng.below(styles.len() as u64) as usize];
-	}
+		let s = styles[((index + seed) % styles.len() as u64) as usize];
+		*net.nodes[0].connect_style.borrow_mut() = s;
+		s
+	};
+	let lax = matches!(style, ConnectStyle::BestBlockFirstReorgsOnlyTip | ConnectStyle::TransactionsFirstReorgsOnlyTip);
 	let c = net.open(0, 1, 1_000_000, 400_000_000);
 	let chan_id = net.chans[c].2;
 	let victim = 0usize; let cheater = 1usize;
@@ -85,9 +394,7 @@ fn justice_scenario(seed: u64, thorough: bool) -> Result<Outcome, String> {
 	let n_before = rng.range(1, if thorough { 40 } else { 10 });
 	let n_after = rng.range(5, if thorough { 60 } else { 14 });
 	let mut pending: Vec<usize> = vec![];
-	let mut captured: Option<Vec<Transaction>> = None;
-	let mut n_updates = 0;
-	let mut do_update = |net: &mut Net, rng: &mut Rng, pending: &mut Vec<usize>| {
+	let do_update = |net: &mut Net, rng: &mut Rng, pending: &mut Vec<usize>| {
 		let act = rng.below(10);
 		if act < 6 || pending.is_empty() {
 			let (a, b) = if rng.chance(1, 2) { (0, 1) } else { (1, 0) };
@@ -100,14 +407,13 @@ fn justice_scenario(seed: u64, thorough: bool) -> Result<Outcome, String> {
 		}
 		net.settle(40);
 	};
-	for _ in 0..n_before { do_update(&mut net, &mut rng, &mut pending); n_updates += 1; }
+	for _ in 0..n_before { do_update(&mut net, &mut rng, &mut pending); }
 	// the cheater's fully signed current commitment + its HTLC transactions, BEFORE it is revoked
-	{
+	let captured: Vec<Transaction> = {
 		let mon = net.nodes[cheater].chain_monitor.chain_monitor.get_monitor(chan_id).map_err(|_| "no cheater monitor")?;
-		captured = Some(mon.unsafe_get_latest_holder_commitment_txn(&net.nodes[cheater].logger));
-	}
-	for _ in 0..n_after { do_update(&mut net, &mut rng, &mut pending); n_updates += 1; }
-	let captured = captured.unwrap();
+		mon.unsafe_get_latest_holder_commitment_txn(&net.nodes[cheater].logger)
+	};
+	for _ in 0..n_after { do_update(&mut net, &mut rng, &mut pending); }
 	let revoked_tx = captured[0].clone();
 	let revoked_txid = revoked_tx.compute_txid();
 	// ---- replay the victim's REAL monitor updates as model ops --------------------------------------
@@ -132,7 +438,7 @@ fn justice_scenario(seed: u64, thorough: bool) -> Result<Outcome, String> {
 					out.directives.push(format!("commit {} {}", d.n, list_or_dash(d.htlcs.iter().map(htlc_tok).collect(), ",")));
 					cmts.push(d);
 				},
-				"CommitmentSecret" => { out.ops.push((format!("secret {}", next_secret), "ok".into())); next_secret -= 1; },
+				"CommitmentSecret" => { out.ops.push((format!("secret {}", next_secret), Some("ok".into()), "secret".into())); next_secret -= 1; },
 				_ => {},
 			}
 		}
@@ -141,118 +447,105 @@ fn justice_scenario(seed: u64, thorough: bool) -> Result<Outcome, String> {
 	let revoked = me.n > next_secret;
 	if !revoked { return Err("captured commitment was not revoked by the later updates".into()); }
 	// the retained data, straight from the model after all secrets
-	out.ops.push((format!("data {}", me.n), list_or_dash(me.htlcs.iter().map(htlc_tok).collect(), ",")));
+	out.ops.push((format!("data {}", me.n), Some(list_or_dash(me.htlcs.iter().map(htlc_tok).collect(), ",")), "data".into()));
 	drop(mon);   // the LockedChannelMonitor holds the ChainMonitor's read lock
 	// ---- confirm the revoked commitment on the victim ---------------------------------------------------
 	if rng.chance(1, 3) { *net.nodes[victim].fee_estimator.sat_per_kw.lock().unwrap() = 253 + rng.below(3000) as u32; }
 	if reload == 1 { net.restart(victim).map_err(|e| format!("reload failed: {}", e))?; }
-	let node = &net.nodes[victim];
-	node.tx_broadcaster.txn_broadcasted.lock().unwrap().clear();
+	net.nodes[victim].tx_broadcaster.txn_broadcasted.lock().unwrap().clear();
+	let _ = net.nodes[victim].chain_monitor.chain_monitor.get_and_clear_pending_events();
 	let mut prevouts: HashMap<OutPoint, TxOut> = HashMap::new();
 	for (i, o) in revoked_tx.output.iter().enumerate() { prevouts.insert(OutPoint { txid: revoked_txid, vout: i as u32 }, o.clone()); }
-	mine_transaction(node, &revoked_tx);
-	let close_height = node.best_block_info().1;
-	let mut all_bcast: Vec<Transaction> = vec![];
-	let mut take = |node: &Node, all: &mut Vec<Transaction>| -> Vec<Transaction> { let v: Vec<Transaction> = node.tx_broadcaster.txn_broadcasted.lock().unwrap().drain(..).collect();
-		if std::env::var("C06_DEBUG").is_ok() { for t in &v { eprintln!("h={} bcast {} in={:?} out={:?}", node.best_block_info().1, t.compute_txid(), t.input.iter().map(|i| format!("{}:{}", &i.previous_output.txid.to_string()[..6], i.previous_output.vout)).collect::<Vec<_>>(), t.output.iter().map(|o| o.value.to_sat()).collect::<Vec<_>>()); } }
-		all.extend(v.iter().cloned()); v };
-	let first = take(node, &mut all_bcast);
-	let tag = |op: &OutPoint, second: &Vec<Transaction>| -> Option<(u8, u32, u32)> {
-		if op.txid == revoked_txid { return Some((0, 0, op.vout)); }
-		second.iter().position(|t| t.compute_txid() == op.txid).map(|k| (1, k as u32, op.vout))
-	};
-	let show = |set: &BTreeSet<(u8, u32, u32)>| list_or_dash(set.iter().map(|t| if t.0 == 0 { format!("c{}", t.2) } else { format!("s{}:{}", t.1, t.2) }).collect(), " ");
+	let cand: Vec<Transaction> = captured.iter().skip(1).cloned().collect();
+	for t in &cand { let id = t.compute_txid(); for (i, o) in t.output.iter().enumerate() { prevouts.insert(OutPoint { txid: id, vout: i as u32 }, o.clone()); } }
+	let cand_ids: Vec<Txid> = cand.iter().map(|t| t.compute_txid()).collect();
 	let outs_tok = list_or_dash(me.outs.iter().map(|(v, k)| format!("{}:{}", v, k)).collect(), ",");
-	let none: Vec<Transaction> = vec![];
-	let mut set_a = BTreeSet::new();
-	for t in &first { for i in &t.input { match tag(&i.previous_output, &none) { Some(x) => { set_a.insert(x); }, None => out.oracle.push(format!("victim broadcast {} spends an unrelated outpoint {}", t.compute_txid(), i.previous_output)) } } }
-	out.ops.push((format!("confirm {} {} -", me.n, outs_tok), show(&set_a)));
-	if reload == 2 { net.restart(victim).map_err(|e| format!("reload failed: {}", e))?; }
-	let node = &net.nodes[victim];
-	// ---- a random subset of the cheater's second-stage transactions confirms ------------------------------
+	let spends_of = |t: &Transaction| t.input.iter().filter(|i| i.previous_output.txid == revoked_txid).map(|i| i.previous_output.vout.to_string()).collect::<Vec<_>>().join("+");
+	let mut cx = Ctx { seed, style: format!("{:?}", style), chan_id, lax, disconnected_once: false, funding: revoked_tx.input[0].previous_output, revoked_txid, me: me.clone(), cand: cand.clone(), cand_ids,
+		prevouts, bcast: vec![], evicted: 0, last_issue: BTreeMap::new(), last_fee: BTreeMap::new(), spendable: BTreeMap::new(), to_remote: BTreeMap::new(), final_txs: BTreeSet::new(), fork_id: 0,
+		stream: Stream::default(), oracle: vec![], soft: vec![], soft_kinds: BTreeSet::new(), classes: vec![], stale_seen: 0 };
+	hist_push(format!("{:?}: {} channel, revoked commitment {} ({} outputs: {}), {} second-stage txs held by the cheater, tip {}", style, if anchors { "anchor" } else { "legacy" }, me.n, me.outs.len(), outs_tok, cand.len(), net.nodes[victim].best_block_info().1));
+	// the chain model starts here: `chain <tip> <n> <outs> <every second-stage tx: the commitment outputs it spends>`
+	cx.stream.lines.push((format!("chain {} {} {} {}", net.nodes[victim].best_block_info().1, me.n, outs_tok, list_or_dash(cand.iter().map(|t| spends_of(t)).collect(), ",")), None, String::new()));
+	let with_second_in_same_block = !cand.is_empty() && rng.chance(1, 8);
+	// a random subset of the cheater's second-stage transactions confirms
 	let mut second: Vec<Transaction> = vec![];
-	for t in captured.iter().skip(1) { if rng.chance(1, 2) { second.push(t.clone()); } }
-	let mut set_b = set_a.clone();
-	if !second.is_empty() {
-		for t in &second {
-			let id = t.compute_txid();
-			for (i, o) in t.output.iter().enumerate() { prevouts.insert(OutPoint { txid: id, vout: i as u32 }, o.clone()); }
-		}
-		let refs: Vec<&Transaction> = second.iter().collect();
-		if std::env::var("C06_DEBUG").is_ok() { for t in &second { eprintln!("second {} in={:?} out={:?} locktime {}", t.compute_txid(), t.input.iter().map(|i| i.previous_output.vout).collect::<Vec<_>>(), t.output.iter().map(|o| o.value.to_sat()).collect::<Vec<_>>(), t.lock_time); } }
-		mine_transactions(node, &refs);
-		let mut after = take(node, &mut all_bcast);
-		// every pending package that can still be bumped is re-issued within LOW_FREQUENCY_BUMP_INTERVAL blocks
-		connect_blocks(node, 15);
-		after.extend(take(node, &mut all_bcast));
-		// what the victim claims now: everything it ever tried to claim that the cheater's confirmed second-stage
-		// transactions have not spent (a chain fact, not model logic), plus whatever it claims on top of those
-		let gone: BTreeSet<OutPoint> = second.iter().flat_map(|t| t.input.iter().map(|i| i.previous_output)).collect();
-		set_b = set_a.iter().filter(|x| !gone.contains(&OutPoint { txid: revoked_txid, vout: x.2 })).cloned().collect();
-		for t in &after { for i in &t.input {
-			if gone.contains(&i.previous_output) { out.oracle.push(format!("victim re-claims {} after the cheater's second-stage spend of it was confirmed", i.previous_output)); continue; }
-			match tag(&i.previous_output, &second) { Some(x) => { set_b.insert(x); }, None => out.oracle.push(format!("victim broadcast {} spends an unrelated outpoint {}", t.compute_txid(), i.previous_output)) } } }
-		let sec_tok = second.iter().map(|t| t.input.iter().filter(|i| i.previous_output.txid == revoked_txid).map(|i| i.previous_output.vout.to_string()).collect::<Vec<_>>().join("+")).collect::<Vec<_>>().join(",");
-		out.ops.push((format!("confirm {} {} {}", me.n, outs_tok, sec_tok), show(&set_b)));
-	} else if rng.chance(1, 2) {
-		// fee-bump path: let timers fire with a rising estimator
-		for _ in 0..rng.range(1, 3) { *node.fee_estimator.sat_per_kw.lock().unwrap() += rng.below(2000) as u32; connect_blocks(node, rng.range(1, 16) as u32); take(node, &mut all_bcast); }
-	}
-	// ---- implementation oracles -----------------------------------------------------------------------------
-	// (1) consensus validity of every broadcast against the outputs it spends
-	for t in &all_bcast {
-		if let Err(e) = t.verify(|op| prevouts.get(op).cloned()) { out.oracle.push(format!("justice tx {} fails consensus verification: {:?}", t.compute_txid(), e)); }
-	}
-	// (2) coverage: every non-victim, non-anchor output is claimed, directly or through its confirmed second-stage child
-	for (i, (_, k)) in me.outs.iter().enumerate() {
-		if *k == 'L' || *k == 'H' {
-			let direct = set_b.contains(&(0, 0, i as u32));
-			let via = second.iter().enumerate().any(|(kk, t)| t.input.iter().enumerate().any(|(pos, inp)| inp.previous_output == OutPoint { txid: revoked_txid, vout: i as u32 } && set_b.contains(&(1, kk as u32, pos as u32))));
-			if !(direct || via) { out.oracle.push(format!("output {} ({}) of revoked commitment {} is not claimed by any broadcast", i, k, me.n)); }
-		} else if set_b.contains(&(0, 0, i as u32)) || set_a.contains(&(0, 0, i as u32)) { out.oracle.push(format!("victim claims its own/anchor output {}", i)); }
-	}
-	// (3) re-issued claims never lower the fee (same input set, later broadcast)
-	let mut last_fee: BTreeMap<Vec<OutPoint>, u64> = BTreeMap::new();
-	for t in &all_bcast {
-		let mut key: Vec<OutPoint> = t.input.iter().map(|i| i.previous_output).collect(); key.sort();
-		if let Some(f) = fee_of(t, &prevouts) {
-			if let Some(prev) = last_fee.get(&key) { if f < *prev { out.oracle.push(format!("re-issued claim {} lowers its fee {} -> {}", t.compute_txid(), prev, f)); } }
-			last_fee.insert(key, f);
-		}
-	}
-	// (4) bury the latest non-conflicting claims; SpendableOutputs + fees = claimed value; balances drain
-	let mut spent: BTreeSet<OutPoint> = BTreeSet::new();
-	for t in &second { for i in &t.input { spent.insert(i.previous_output); } }
-	let mut chosen: Vec<Transaction> = vec![];
-	for t in all_bcast.iter().rev() {
-		if t.input.iter().all(|i| !spent.contains(&i.previous_output)) { for i in &t.input { spent.insert(i.previous_output); } chosen.push(t.clone()); }
-	}
-	let claimed_value: u64 = chosen.iter().map(|t| t.input.iter().map(|i| prevouts[&i.previous_output].value.to_sat()).sum::<u64>()).sum();
-	let fees: u64 = chosen.iter().map(|t| fee_of(t, &prevouts).unwrap_or(0)).sum();
-	if !chosen.is_empty() { let refs: Vec<&Transaction> = chosen.iter().collect(); mine_transactions(node, &refs); }
-	connect_blocks(node, ANTI_REORG_DELAY - 1);
-	let mut swept = 0u64; let mut to_remote_swept = 0u64;
-	let evs = node.chain_monitor.chain_monitor.get_and_clear_pending_events();
-	for e in evs { if let Event::SpendableOutputs { outputs, .. } = e { for o in outputs { match o {
-		SpendableOutputDescriptor::StaticOutput { output, .. } => swept += output.value.to_sat(),
-		SpendableOutputDescriptor::StaticPaymentOutput(d) => to_remote_swept += d.output.value.to_sat(),
-		SpendableOutputDescriptor::DelayedPaymentOutput(d) => swept += d.output.value.to_sat(),
-	} } } }
-	if node.best_block_info().1 < close_height + ANTI_REORG_DELAY - 1 { connect_blocks(node, ANTI_REORG_DELAY); }
-	for e in node.chain_monitor.chain_monitor.get_and_clear_pending_events() { if let Event::SpendableOutputs { outputs, .. } = e { for o in outputs { if let SpendableOutputDescriptor::StaticPaymentOutput(d) = o { to_remote_swept += d.output.value.to_sat(); } } } }
-	if swept + fees != claimed_value { out.oracle.push(format!("after burial SpendableOutputs {} + fees {} != claimed value {}", swept, fees, claimed_value)); }
-	let my_to_remote: u64 = me.outs.iter().filter(|o| o.1 == 'R').map(|o| o.0).sum();
-	if to_remote_swept != my_to_remote { out.oracle.push(format!("victim's own to_remote {} not reported spendable (got {})", my_to_remote, to_remote_swept)); }
-	let mon = node.chain_monitor.chain_monitor.get_monitor(chan_id).map_err(|_| "no victim monitor")?;
-	let bals = mon.get_claimable_balances();
-	drop(mon);
-	let left: Vec<&Balance> = bals.iter().filter(|b| !matches!(b, Balance::MaybePreimageClaimableHTLC { .. })).collect();
-	if !left.is_empty() { out.oracle.push(format!("claimable balances do not drain after burial: {:?}", left)); }
+	for t in cand.iter() { if rng.chance(1, 2) { second.push(t.clone()); } }
+	let rounds = rng.below(4);
+	let old_flow = rounds == 0 && !with_second_in_same_block;
+	let mut first_block = vec![revoked_tx.clone()];
+	if with_second_in_same_block { first_block.extend(second.iter().cloned()); }
+	cx.connect(&net, first_block, "chain:commitment");
+	let close_height = net.nodes[victim].best_block_info().1;
+	let show = |set: &BTreeSet<(u8, u32, u32)>| list_or_dash(set.iter().map(|t| if t.0 == 0 { format!("c{}", t.2) } else { format!("s{}:{}", t.1, t.2) }).collect(), " ");
 	let n_htlc = me.outs.iter().filter(|o| o.1 == 'H').count();
 	out.class = format!("justice:htlcs{}:second{}:toLocal{}:anchors{}:reload{}", n_htlc.min(4), second.len().min(3), me.outs.iter().any(|o| o.1 == 'L') as u8, anchors as u8, if reload < 3 { reload } else { 0 });
-	let _ = n_updates;
+	// the claim set right after the confirmation (old comparison: the outpoints the victim's first broadcasts spend)
+	let mut set_a = BTreeSet::new();
+	if !with_second_in_same_block {
+		for (_, t) in cx.bcast.iter() { for i in &t.input { if i.previous_output.txid == revoked_txid { set_a.insert((0u8, 0u32, i.previous_output.vout)); } } }
+		cx.stream.lines.push((format!("confirm {} {} -", me.n, outs_tok), Some(show(&set_a)), out.class.clone()));
+	}
+	if reload == 2 { cx.reload(&mut net)?; }
+	if cx.oracle.is_empty() {
+		if !with_second_in_same_block {
+			cx.connect_empty(&net, rng.below(3) as u32);
+			if !second.is_empty() {
+				if second.len() > 1 && rng.chance(1, 3) { let (a, b) = second.split_at(1); cx.connect(&net, a.to_vec(), "chain:second"); cx.connect(&net, b.to_vec(), "chain:second"); }
+				else { cx.connect(&net, second.clone(), "chain:second"); }
+			}
+		}
+		if old_flow {
+			// every pending package that can still be bumped is re-issued within LOW_FREQUENCY_BUMP_INTERVAL blocks
+			if !second.is_empty() { cx.connect_empty(&net, 15); }
+			else if rng.chance(1, 2) { for _ in 0..rng.range(1, 3) { *net.nodes[victim].fee_estimator.sat_per_kw.lock().unwrap() += rng.below(2000) as u32; cx.connect_empty(&net, rng.range(1, 16) as u32); } }
+			if !second.is_empty() {
+				// what the victim claims now: everything it ever tried to claim that the cheater's confirmed second-stage
+				// transactions have not spent (a chain fact, not model logic), plus whatever it claims on top of those
+				let gone: BTreeSet<OutPoint> = second.iter().flat_map(|t| t.input.iter().map(|i| i.previous_output)).collect();
+				let second_ids: Vec<Txid> = second.iter().map(|t| t.compute_txid()).collect();
+				let mut set_b: BTreeSet<(u8, u32, u32)> = set_a.iter().filter(|x| !gone.contains(&OutPoint { txid: revoked_txid, vout: x.2 })).cloned().collect();
+				let last_second = { let (_, conf, _) = chain_view(&net.nodes[victim]); second_ids.iter().filter_map(|i| conf.get(i).cloned()).max().unwrap_or(close_height + 1) };
+				let since: Vec<Transaction> = cx.bcast.iter().filter(|(h, _)| *h >= last_second).map(|(_, t)| t.clone()).collect();
+				for t in &since { for i in &t.input {
+					if gone.contains(&i.previous_output) { cx.fail(format!("victim re-claims {} after the cheater's second-stage spend of it was confirmed", i.previous_output)); continue; }
+					if i.previous_output.txid == revoked_txid { set_b.insert((0, 0, i.previous_output.vout)); }
+					else if let Some(k) = second_ids.iter().position(|x| *x == i.previous_output.txid) { set_b.insert((1, k as u32, i.previous_output.vout)); } } }
+				let sec_tok = second.iter().map(|t| spends_of(t)).collect::<Vec<_>>().join(",");
+				cx.stream.lines.push((format!("confirm {} {} {}", me.n, outs_tok, sec_tok), Some(show(&set_b)), out.class.clone()));
+				// coverage: every non-victim, non-anchor output is claimed, directly or through its confirmed second-stage child
+				for (i, (_, k)) in me.outs.iter().enumerate() {
+					if *k == 'L' || *k == 'H' {
+						let direct = set_b.contains(&(0, 0, i as u32));
+						let via = second.iter().enumerate().any(|(kk, t)| t.input.iter().enumerate().any(|(pos, inp)| inp.previous_output == OutPoint { txid: revoked_txid, vout: i as u32 } && set_b.contains(&(1, kk as u32, pos as u32))));
+						if !(direct || via) { cx.fail(format!("output {} ({}) of revoked commitment {} is not claimed by any broadcast", i, k, me.n)); }
+					} else if set_b.contains(&(0, 0, i as u32)) || set_a.contains(&(0, 0, i as u32)) { cx.fail(format!("victim claims its own/anchor output {}", i)); }
+				}
+			}
+		} else {
+			cx.connect_empty(&net, rng.below(4) as u32);
+			if rng.chance(1, 3) { let j = cx.pick_mempool(&net); if !j.is_empty() { cx.connect(&net, j, "chain:justice-confirmed"); cx.connect_empty(&net, rng.below(3) as u32); } }
+			for _ in 0..rounds {
+				if !cx.oracle.is_empty() { break; }
+				if rng.chance(1, 2) { cx.connect_empty(&net, rng.range(1, 3) as u32); }
+				cx.reorg_round(&mut net, &mut rng)?;
+				if !cx.oracle.is_empty() { break; }
+				if rng.chance(1, 8) { *net.nodes[victim].fee_estimator.sat_per_kw.lock().unwrap() += rng.below(1000) as u32; }
+				if rng.chance(1, 3) { let j = cx.pick_mempool(&net); if !j.is_empty() { cx.connect(&net, j, "chain:justice-confirmed"); cx.connect_empty(&net, rng.below(3) as u32); } }
+			}
+		}
+	}
+	if cx.oracle.is_empty() { cx.drain(&mut net, &mut rng)?; }
+	let _ = close_height;
+	out.extra_classes = cx.classes.clone();
+	out.extra_classes.push(format!("style:{}", cx.style));
+	if cx.stale_seen > 0 { out.extra_classes.push(format!("claims-of-unconfirmed-parent-seen:{}", cx.style)); }
+	out.oracle = cx.oracle.clone();
+	out.oracle.extend(cx.soft.iter().rev().cloned());
 	let _ = net.nodes[victim].node.get_and_clear_pending_events();
 	let _ = net.nodes[victim].node.get_and_clear_pending_msg_events();
+	// hand the chain stream over in file order
+	out.ops.extend(cx.stream.lines.drain(..));
 	Ok(out)
 }
 
@@ -264,20 +557,31 @@ fn main() {
 		"c06bump" => bump::run_bump(&mut rec, &mut rng, args.thorough, args.scale),
 		"c06justice" => {
 			silence_stdout();
-			let n = if args.thorough { 1200 } else { 120 } * args.scale;
+			let n = if args.thorough { 1200 } else { 132 } * args.scale;
+			let only: Option<u64> = std::env::var("C06_ONLY").ok().and_then(|s| s.parse().ok());
 			for k in 0..n {
 				let s = rng.next();
-				match guarded(AssertUnwindSafe(|| justice_scenario(s, args.thorough))) {
+				if let Some(o) = only { if o != k { continue; } }
+				match guarded(AssertUnwindSafe(|| justice_scenario(s, args.thorough, k))) {
 					Ok(Ok(o)) => {
 						for d in &o.directives { rec.directive(d); }
-						for (op, res) in &o.ops { let cl = if op.starts_with("confirm") { o.class.clone() } else { op.split(' ').next().unwrap().to_string() }; rec.case(op, res, &cl, op.starts_with("confirm")); }
+						for (op, res, cl) in &o.ops { match res {
+							Some(r) => rec.case(op, r, cl, op.starts_with("confirm") || op.starts_with("conn") || op.starts_with("disc")),
+							None => rec.directive(op),
+						} }
+						for c in &o.extra_classes { *rec.classes.entry(c.clone()).or_insert(0) += 1; }
 						for f in o.oracle { rec.oracle_fail(format!("scenario {} (seed {}): {}", k, s, f)); }
 					},
 					Ok(Err(e)) => { rec.discarded += 1; *rec.classes.entry(format!("discarded:{}", e.chars().take(40).collect::<String>())).or_insert(0) += 1; },
-					Err(p) => rec.oracle_fail(format!("scenario {} (seed {}) panicked: {}", k, s, p.replace('\n', " ").chars().take(300).collect::<String>())),
+					// `*ReorgsOnlyTip` styles never tell the monitor that the tip went DOWN (only `transaction_unconfirmed`), so until the next
+					// best_block_updated it may sign a claim with nLockTime = its stale, higher tip: TestBroadcaster (a test utility, which
+					// knows the true tip) panics on that.  Not a property verdict: the scenario is discarded and counted.
+					Err(p) if p.contains("We should never broadcast a transaction before its locktime") && hist_show().contains("ReorgsOnlyTip") && hist_show().contains("disconnect ") => {
+						rec.discarded += 1; *rec.classes.entry("discarded:txonly-style broadcast with a stale tip (TestBroadcaster locktime assertion)".into()).or_insert(0) += 1; },
+					Err(p) => rec.oracle_fail(format!("scenario {} (seed {}) panicked: {} — history: {}", k, s, p.replace('\n', " ").chars().take(300).collect::<String>(), hist_show())),
 				}
 			}
-			rec.notes.insert("rule".into(), "one scenario = one real 2-node channel with a PRNG-drawn payment history (dust / near-dust / non-dust, both directions, claims and failures), the cheater's commitment captured at a random old state, a random subset of its HTLC transactions; distinct = distinct `confirm` op lines (commitment number + output layout + second-stage subset)".into());
+			rec.notes.insert("rule".into(), "one scenario = one real 2-node channel with a PRNG-drawn payment history (dust / near-dust / non-dust, both directions, claims and failures), the cheater's commitment captured at a random old state, a random subset of its HTLC transactions, then 0-3 reorgs (fork point above everything / below the victim's confirmed justice tx / below the second-stage txs / below the commitment; other branch with or without the cheater's and the victim's transactions), every ConnectStyle in turn, reloads, mempool eviction before the final drain; distinct = distinct `confirm` / `conn` / `disc` op lines".into());
 		},
 		m => { eprintln!("unknown model {}", m); std::process::exit(2); },
 	}
